@@ -33,7 +33,7 @@ def strategy(tier):
 
 def run_case(case):
   out = Outcome()
-  hr = HistoryRun(case['h'], snapshots=False)
+  hr = HistoryRun(case['h'], snapshots=False, settle=False)
   fault = case.get('fault')
   st8 = {'nt': False, 'n': 0, 'fired': False}
 
